@@ -8,6 +8,7 @@ import (
 	"strconv"
 	"strings"
 	"sync"
+	"time"
 
 	"github.com/mmcloughlin/addchain"
 	"github.com/mmcloughlin/addchain/acc"
@@ -18,6 +19,7 @@ import (
 	"github.com/mmcloughlin/addchain/alg"
 	"github.com/mmcloughlin/addchain/alg/ensemble"
 	"github.com/mmcloughlin/addchain/alg/exec"
+	"github.com/mmcloughlin/addchain/verifhooks"
 )
 
 // C04 and C16 share the generator: C04 writes `c04` lines (decompile, build, print, reload),
@@ -561,6 +563,7 @@ func genC04(g *Gen, emit func(g *Gen, p addchain.Program), maxLen, sample7 int) 
 	emit(g, addchain.Program{})
 	g.Count("empty")
 	c04FileProbe(g)
+	c04CLIProbe(g)
 
 	// every duplicate-free program up to the bound, both operand orders
 	for n := 1; n <= maxLen; n++ {
@@ -857,5 +860,52 @@ func genC04b(g *Gen) {
 		"1:A(0,0);2:A(1,1)", "3:S(0,3);4:A(1,3)", "0:S(0,0)", "0:S(0,0);1:D(0)", "2:D(0)", "1:D(1)"} {
 		c04bCase(g, d)
 		g.Count("ir-fixed")
+	}
+}
+
+// c04CLIProbe: the script the `search` subcommand prints on standard output, with and without -v and
+// at two concurrency settings, is a script: it loads back to a chain that ends at the target, and
+// the verbose run prints the same bytes as the quiet one (logs belong on standard error).
+func c04CLIProbe(g *Gen) {
+	if addchainBin() == "" {
+		return
+	}
+	targets := []string{"47", "2^31 - 1", "0x1f3", strconv.Itoa(3 + g.R.Intn(4000))}
+	for _, e := range targets {
+		n, err := verifhooks.CalcEval(e)
+		if err != nil || n == nil {
+			continue
+		}
+		var quiet []byte
+		for k, args := range [][]string{{"search", e}, {"search", "-v", "-p", "2", e}, {"search", "-v", e}} {
+			r := runCLI(args, nil, 60*time.Second)
+			if r.timedOut {
+				continue
+			}
+			msg := ""
+			if r.exit != 0 {
+				msg = fmt.Sprintf("exit status %d", r.exit)
+			} else if pn := safe(func() {
+				p, lerr := acc.LoadString(string(r.stdout))
+				if lerr != nil {
+					msg = "standard output does not load: " + lerr.Error()
+					return
+				}
+				if perr := p.Chain.Produces(n); perr != nil {
+					msg = "the loaded chain is not a chain for the target: " + perr.Error()
+				}
+			}); pn != "" {
+				msg = "loading standard output panics: " + pn
+			}
+			if msg == "" && k == 0 {
+				quiet = r.stdout
+			} else if msg == "" && quiet != nil && !bytes.Equal(quiet, r.stdout) {
+				msg = "standard output differs from the one printed without -v"
+			}
+			if msg != "" && !g.notesViolation() {
+				g.Notes = append(g.Notes, fmt.Sprintf("VIOLATION: `addchain %s`: %s", strings.Join(args, " "), msg))
+			}
+			g.Count("cli-search-stdout")
+		}
 	}
 }
